@@ -16,11 +16,41 @@ TRUSTED = ['rustc (Kani toolchain)', 'Kani 0.68 / CBMC 6.11']
 RULE = 'one Kani harness per obligation over arbitrary input bytes with a symbolic length'
 
 
+def attr_groups(tier):
+    nmax = 14 if tier == 'quick' else 17
+    # a valid one-entry blob prefix steers part of the search into the value decoders (count=1, name "a")
+    pre = [1, 0, 0, 0, 1, 0, 0, 0, 0x61]
+    g = [
+        dict(id='M16.fuzz', desc='Attributes::from_reader on arbitrary bytes: Ok or Err, never a panic; every allocation request bounded by the input size', bounds='every input of 0..%d bytes (all byte values symbolic)' % nmax,
+             cases=[dict(what='fuzz', len=n) for n in range(0, nmax + 1)], budget=900),
+        dict(id='M16.fuzz.entry', desc='same, inputs that start with a well-formed count and name so that every value decoder is reached with a truncated or arbitrary payload', bounds='9-byte valid prefix + 1..%d arbitrary bytes' % (nmax - 2),
+             cases=[dict(what='fuzz', len=9 + n, prefix=pre) for n in range(1, nmax - 1)], budget=900),
+        dict(id='M16b.partition', desc='decoding result independent of how the reader delivers the bytes to the hand-written read loop (short reads of any size, Interrupted errors); std read_exact/read_to_end are partition-independent by contract', bounds='every input of 0..6 bytes and a valid 11-byte one-entry blob, <= 10 read() calls, <= 2 consecutive interruptions',
+             cases=[dict(what='partition', len=n) for n in range(0, 7)] + [dict(what='partition', len=11, prefix=pre + [0x03])], budget=600),
+        dict(id='M18.attr_sink', desc='Attributes::to_writer into a sink that fails after k bytes returns that error (never Ok, never a panic)', bounds='1-entry maps (Bool, String), every k below the blob size',
+             cases=[dict(what='sink', entries=[(kind, 1, 1)], fail_at=k) for kind, total in (('Bool', 11), ('String', 15)) for k in range(0, total)], budget=300),
+    ]
+    return g
+
+
 def run(tier, seed, t0, only=None):
+    from ..mirsym import attrrun, mirdump
     gen.build_tools()
     gen.write_kani_tables()
+    mirdump.dump('rbx_types')
     hs = harnesses(tier)
     if only:
         hs = [h for h in hs if any(h.oid.startswith(o) for o in only)]
-    obs = K.run_harnesses(hs, tier)
-    return C.finish('C13', tier, seed, obs, t0, ASSUMPTIONS, TRUSTED, RULE)
+    gs = attr_groups(tier)
+    if only:
+        gs = [g for g in gs if any(g['id'].startswith(o) for o in only)]
+    obs = attrrun.run(gs, ('C13',)) if gs else []
+    obs += K.run_harnesses(hs, tier) if hs else []
+    return C.finish('C13', tier, seed, obs, t0, ASSUMPTIONS + ASSUMPTIONS_M, TRUSTED + ['rustc nightly MIR of rbx_types; vlib/mirsym interpreter with Read/Write cursor models; z3'], RULE)
+
+
+ASSUMPTIONS_M = [
+    'attribute decoder: inputs up to the stated length with every byte symbolic; Read is a cursor model (one-shot, or delivering a symbolic number of bytes per call with Interrupted errors)',
+    'allocation obligation: a buffer request whose size term can exceed max(64, 16 x input length) under the path condition is reported',
+    'binary chunk / PROP / PRNT decoders and the whole-file truncation obligation are not part of this claim yet',
+]
